@@ -188,7 +188,8 @@ fn gen(rng: &mut Rng, tier: Tier) -> Vec<Case> {
     }
     if tier == Tier::Thorough {
         // large enough for par_sort_unstable_by to take its parallel path
-        for (n, chunk) in [(300_000usize, 100_000usize), (120_000, 40_000)] {
+        // (rayon's parallel quicksort starts above 2000 elements; the model's run formation is quadratic in the chunk size)
+        for (n, chunk) in [(30_000usize, 5_000usize), (24_000, 12_000), (9_000, 3_000)] {
             let xs: Vec<SItem> = (0..n).map(|i| (vec![rng.below(5000)], (i as u32).to_be_bytes().to_vec())).collect();
             push("large", C { rev: false, chunk, threads: 8, comp: Some(1), tmp: true, ty: "kv".into(), xs });
         }
@@ -199,7 +200,7 @@ fn gen(rng: &mut Rng, tier: Tier) -> Vec<Case> {
 pub fn prop() -> PropDef {
     PropDef {
         id: "C01",
-        rule: "corpus, then (a) lengths k*c-1, k*c, k*c+1 for chunk sizes c in {0,1,2,3,7,64} and k <= 4, and chunk sizes n, n+1, 1e6 for n in {0,1,2,5,50}; (b) random inputs of 0-400 records with chunk sizes n/3, n, 1000, 2..60; inputs sorted / reversed / constant key / 3 keys (many ties) / random / with a 9 KiB and a 70 KiB record; record types (key,payload) compared by key only or reversed, GenomicRange (sort with its Ord, and sort_by), BED<6> with optional fields, NarrowPeak with float fields, BedGraph<f64>; threads in {1,2,3,8,16}, compression in {none,0,1,4,9,16}, explicit or default tmp dir; thorough adds inputs of 1.2e5 and 3e5 records. The number of chunks is kept <= 200 (open-file limit). Non-trivial: >= 2 records and (>= 2 runs or a tie under the comparator). Distinct = distinct input token sequence.",
+        rule: "corpus, then (a) lengths k*c-1, k*c, k*c+1 for chunk sizes c in {0,1,2,3,7,64} and k <= 4, and chunk sizes n, n+1, 1e6 for n in {0,1,2,5,50}; (b) random inputs of 0-400 records with chunk sizes n/3, n, 1000, 2..60; inputs sorted / reversed / constant key / 3 keys (many ties) / random / with a 9 KiB and a 70 KiB record; record types (key,payload) compared by key only or reversed, GenomicRange (sort with its Ord, and sort_by), BED<6> with optional fields, NarrowPeak with float fields, BedGraph<f64>; threads in {1,2,3,8,16}, compression in {none,0,1,4,9,16}, explicit or default tmp dir; thorough adds inputs of 9e3 to 3e4 records in chunks of 3e3 to 1.2e4 (above rayon's sequential cut-off of 2000). The number of chunks is kept <= 200 (open-file limit). Non-trivial: >= 2 records and (>= 2 runs or a tie under the comparator). Distinct = distinct input token sequence.",
         observable: "initial len() and the item sequence as (comparator key, full bincode serialisation) or error items; ties compared as classes",
         gen, exec, shrink, child: None,
     }
